@@ -507,6 +507,7 @@ func c02r6(r *R) {
 	jt := c.Named("pkg/ja4", "JA4Fingerprint")
 	ver := "assert[*tls.SupportedVersionsExtension](" + extI + ")#0.Versions[" + rngIdx + "]"
 	n := 0
+	sawLegacy := false
 	for _, a := range fieldAccesses([]*ssa.Function{tv}, jt, "TLSVersion") {
 		if a.Kind != "write" {
 			continue
@@ -514,21 +515,36 @@ func c02r6(r *R) {
 		n++
 		st := a.Instr.(*ssa.Store)
 		o.AtI(st)
-		phi, ok := unwrapIface(st.Val).(*ssa.Phi)
-		if !o.Check(ok, "TLSVersion is set from %s", c.Expr(st.Val)) {
-			continue
+		// the value is chosen per path: either one store of a phi, or one store per branch
+		type vcase struct {
+			e  string
+			gs []string
 		}
-		sawLegacy := false
-		for k, e := range phi.Edges {
-			pred := phi.Block().Preds[k]
-			if c.Expr(e) == "p1.TLSVersMax" {
+		var cases []vcase
+		if phi, ok := unwrapIface(st.Val).(*ssa.Phi); ok && phi.Block() == st.Block() {
+			for k, e := range phi.Edges {
+				cases = append(cases, vcase{c.Expr(e), c.guardStrs(phi.Block().Preds[k])})
+			}
+		} else {
+			cases = append(cases, vcase{c.Expr(unwrapIface(st.Val)), c.guardStrs(st.Block())})
+		}
+		for _, vc := range cases {
+			if vc.e == "p1.TLSVersMax" {
 				sawLegacy = true
-				o.Check(hasGuard(c.guardStrs(pred), "-(0 == p1.TLSVersMax)"), "the legacy version is used although supported_versions is present")
+				o.Check(hasGuard(vc.gs, "-(0 == p1.TLSVersMax)"), "the legacy version is used although supported_versions is present")
+			} else {
+				o.Check(hasGuard(vc.gs, "+(0 == p1.TLSVersMax)") && (vc.e == "0" || strings.Contains(vc.e, ver)), "TLSVersion is set from %s under %v, want the maximum over supported_versions when the hello carries no fixed version", vc.e, vc.gs)
 			}
 		}
-		o.Check(sawLegacy, "the hello's legacy version is never used (needed when there is no supported_versions extension)")
 	}
-	o.Check(n == 1, "TLSVersion stored %d times", n)
+	o.Check(sawLegacy, "the hello's legacy version is never used (needed when there is no supported_versions extension)")
+	o.Check(n >= 1, "TLSVersion is never stored")
+	if p := c.escapePath(tv, nil, func(i ssa.Instruction) bool {
+		s, ok := i.(*ssa.Store)
+		return ok && c.Expr(s.Addr) == "p0.TLSVersion"
+	}, isReturn); p != nil {
+		o.Fail("unmarshalTLSVersion can return without setting TLSVersion: %v", p)
+	}
 	// the running maximum is updated only for non-GREASE v > vers
 	found := false
 	eachInstr(tv, func(i ssa.Instruction) {
